@@ -441,7 +441,8 @@ class Poly(meta(metaclass=PolyMeta)):
       return Poly(zero=self.zero)
     if len(self._data) == 1:
       return Poly(OrderedDict((k * other,
-                               1 if v == 1 else v ** other) # Avoid casting
+                               1 if not isinstance(v, Stream) and v == 1
+                                 else v ** other) # Avoid casting
                               for k, v in iteritems(self._data)),
                   zero=self.zero)
     copies = [self.copy() for unused in xrange(other - 1)] # Independent ones
